@@ -450,7 +450,7 @@ AUX_PRELUDE = r'''
 typedef char* char_ptr; typedef char_ptr* char_ptr_ptr; typedef char_ptr_ptr* char_ptr_ptr_ptr;
 uint32_t naux; char_ptr_ptr_ptr aux;
 int vp_thrown;
-void* vp_new(size_t elsize, size_t n); void* vp_allocate(size_t elsize, size_t n); void vp_deallocate(void* p, size_t n);
+void* vp_new(size_t elsize, size_t n); void vp_delete(void* p); void* vp_allocate(size_t elsize, size_t n); void vp_deallocate(void* p, size_t n);
 void  vp_copy(const void* first, const void* last, void* out);
 size_t strlen(const char*); int strcmp(const char*, const char*); int strncmp(const char*, const char*, size_t);
 int vp_isupper(int); int vp_isdigit(int); int vp_islower(int);
@@ -479,7 +479,8 @@ def aux_functions():
         body = r.sub("R7_throw", r"throw\s+std::runtime_error\(.*?\);", "{ vp_thrown = 1; return false; }", body, flags=re.S)
         body = r.sub("R1_address_deref", r"&\*", "", body)
         body = r.sub("R4_nullptr", r"\bnullptr\b", "NULL", body)
-        body = r.sub("R15_new_array", r"new char_ptr\[(.*?)\]", r"(char_ptr*)vp_new(sizeof(char_ptr), \1)", body)
+        body = r.sub("R15_new_array", r"new (char_ptr(?:_ptr)?)\[(.*?)\]", r"(\1*)vp_new(sizeof(\1), \2)", body)
+        body = r.sub("R15_delete_array", r"delete\[\]\s*(\w+);", r"vp_delete(\1);", body)
         body = r.sub("R17_allocate", r"allocate<(\w+)>\((.*?)\)(\s*[;+])", r"((\1*)vp_allocate(sizeof(\1), \2))\3", body)
         body = r.sub("R17_deallocate", r"(?<![A-Za-z0-9_])deallocate\(", "vp_deallocate(", body)
         body = r.sub("R16_copy_n", r"std::copy_n\(([^,]+),([^,]+),([^;]+)\);", r"vp_copy(\1, (\1) + (\2), \3);", body)
